@@ -111,6 +111,8 @@ def _read(obj, backend, key):
         return ("nothing",)     # "reading fails" = key-not-found
     if st is None:
         return ("nothing",)
+    if st.query != key or st.metadata.get("status") != "ready":
+        return ("value", ("MIXED-METADATA", st.query, st.metadata.get("status")))     # an entry served with foreign / rebuilt metadata
     return ("value", st.data)
 
 
